@@ -213,7 +213,8 @@ Section Parser.
     end.
   Definition tok_num (t : str) : option nat := match t with [] => None | _ => num_aux t 0 end.
 
-  (* args_map[input - 1] on a list: index -1 is the last element *)
+  (* args_map[input - 1] on a list (defaults=False; the defaultdict of defaults=True is
+     not modelled): index -1 is the last element *)
   Definition input_ref (n : nat) : option nat :=
     match n with
     | 0 => match ninputs with 0 => None | S k => Some k end
